@@ -45,12 +45,12 @@ def bounds(tier):
     if tier == "quick":
         return {"sizes": [[1, 1], [2, 1], [1, 2], [2, 2], [3, 1]], "easy": [[0, 0], [1, 2], [3, 4]], "supply": len(SUPPLY),
                 "nb_points": NBP, "alphas": ALPHAS, "methods": METHODS, "menu_sequences": 27, "builtin_nb_samples": 1,
-                "big_sizes": [[5, 1], [1, 6]], "light_sizes": [10, 13, 22, 49, 98, 103]}
+                "big_sizes": [[5, 1], [1, 6]], "light_sizes": [10, 13, 22, 49, 98, 103], "long_sizes": [1100]}
     return {"sizes": [[1, 1], [2, 1], [1, 2], [2, 2], [3, 1], [1, 3], [3, 2], [2, 3]], "easy": [[0, 0], [1, 2], [3, 4], [8, 0], [11, 12]],
             "supply": len(SUPPLY), "nb_points": NBP + [9], "alphas": ALPHAS + [0.9], "methods": METHODS,
             "menu_sequences": 27, "builtin_nb_samples": 2,
             "big_sizes": [[5, 1], [1, 6], [10, 1], [1, 13], [14, 1], [2, 15], [7, 2], [22, 1]],
-            "light_sizes": list(range(7, 201))}
+            "light_sizes": list(range(7, 201)), "long_sizes": [1100, 2100]}
 
 
 def work(tier, seed):
@@ -73,6 +73,12 @@ def work(tier, seed):
         for split in (0, 1, n // 2, n - 1, n):
             for ep, en in ((0, 0), (1, 0)):
                 items.append({"light": True, "n": n, "split": split, "easy": [ep, en], "rot": k})
+                k += 1
+    # curves with more than 1024 / 2048 support points (one configuration each: the band code is quadratic)
+    for n in b.get("long_sizes", []):
+        for split in (0, n // 2):
+            for which in ("pos", "neg"):
+                items.append({"light": True, "long": which, "n": n, "split": split, "easy": [0, 0], "rot": k})
                 k += 1
     return items
 
@@ -106,6 +112,13 @@ def envelope(x, dx, dy, slack=0.0):
     quantiles: a one-ulp difference in an end point must not decide the verdict).
     """
     out = []
+    if len(x) > 400:  # same definition, one vectorised membership test per point (long curves)
+        xs, dxa, dya = np.asarray(x, dtype=float), np.asarray(dx, dtype=float), np.asarray(dy, dtype=float)
+        for i in range(len(xs)):
+            inside = (dxa[:, 0] - slack <= xs[i]) & (xs[i] <= dxa[:, 1] + slack)
+            out.append((min(dy[i][0], float(np.min(dya[inside, 0], initial=np.inf))),
+                        max(dy[i][1], float(np.max(dya[inside, 1], initial=-np.inf)))))
+        return out
     for i in range(len(x)):
         lo, hi = dy[i][0], dy[i][1]
         for j in range(len(x)):
@@ -210,6 +223,47 @@ def compare_bands(ctx, case, src, r, samples, alpha, method, pointwise_only=Fals
              case, observed=[got_fnr, got_fpr], expected=[matches[0][0], matches[0][1]])
 
 
+def exact_envelope(ctx, case, src, r_band, alpha, cfgobj, reset=None):
+    """
+    roc_with_ci against pointwise_band_ci asked for the same thresholds under the same (deterministic) sampler
+    answers: both compute the same pointwise intervals at a threshold, so the band must be the envelope - with
+    exact comparisons, no slack - of the rectangles pointwise_band_ci returns. (The two functions order and
+    extend their supports differently, so points are matched by threshold value; if a threshold of the band is
+    not among the pointwise ones the comparison is skipped and counted.)
+    """
+    from score_analysis.experimental import pointwise_band_ci
+
+    if reset is not None:
+        reset()
+    th = np.asarray(r_band.thresholds, dtype=float)
+    ok, rp = guarded(ctx, "pointwise_band_ci", case, lambda: pointwise_band_ci(src, thresholds=th.copy(), alpha=alpha, config=cfgobj))
+    if not ok:
+        return
+    index = {float(t): k for k, t in enumerate(np.asarray(rp.thresholds, dtype=float).tolist())}
+    try:
+        sel = [index[float(t)] for t in th.tolist()]
+    except KeyError:
+        ctx.add("exact_envelope_not_comparable")
+        return
+    fnr, fpr = np.asarray(r_band.fnr, dtype=float), np.asarray(r_band.fpr, dtype=float)
+    pf, pp = np.asarray(rp.fnr_ci, dtype=float)[sel], np.asarray(rp.fpr_ci, dtype=float)[sel]
+    if np.isnan(pf).any() or np.isnan(pp).any() or not (np.array_equal(fnr, np.asarray(rp.fnr, dtype=float)[sel])
+                                                        and np.array_equal(fpr, np.asarray(rp.fpr, dtype=float)[sel])):
+        ctx.add("exact_envelope_not_comparable")
+        return
+    want_fpr = np.array(envelope(fnr.tolist(), pf.tolist(), pp.tolist()), dtype=float)
+    want_fnr = np.array(envelope(fpr.tolist(), pp.tolist(), pf.tolist()), dtype=float)
+    got_fnr, got_fpr = np.asarray(r_band.fnr_ci, dtype=float), np.asarray(r_band.fpr_ci, dtype=float)
+    ctx.tick()
+    ctx.add("exact_envelope_compared")
+    for nm, got, want in (("fnr_ci", got_fnr, want_fnr), ("fpr_ci", got_fpr, want_fpr)):
+        if got.shape != want.shape or not np.allclose(got, want, rtol=0, atol=1e-12):
+            k = int(np.argmax(np.abs(got - want).max(axis=1))) if got.shape == want.shape else -1
+            ctx.fail("band-equals-envelope-of-pointwise-rectangles", dict(case, band=nm, point=k, versus="pointwise_band_ci"),
+                     observed=got[k] if k >= 0 else list(got.shape), expected=want[k] if k >= 0 else list(want.shape))
+            return
+
+
 def run(item, ctx, tier, seed):
     from score_analysis import BootstrapConfig, Scores
     from score_analysis.experimental import fixed_width_band_ci, pointwise_band_ci, simultaneous_joint_region_ci
@@ -253,6 +307,8 @@ def run(item, ctx, tier, seed):
                         ctx.outcome((cfg, si, nbp, alpha, np.round(np.asarray(r.fnr_ci, dtype=float), 9).tobytes()))
                         if wellformed(ctx, case, src, r, True):
                             compare_bands(ctx, case, src, r, [src, src], alpha, method)
+                            if alpha == b["alphas"][(si + rot) % len(b["alphas"])]:
+                                exact_envelope(ctx, case, src, r, alpha, cfgobj)
         # ---------------- experimental functions, identity sampler
         for si, spec in enumerate(SUPPLY):
             kw = _supply_kwargs(spec, vals)
@@ -312,6 +368,9 @@ def run(item, ctx, tier, seed):
             if wellformed(ctx, dict(case, function=fname), src, r, fname == "roc_with_ci"):
                 compare_bands(ctx, dict(case, function=fname), src, r, [menu[k] for k in seq], alpha, method,
                               pointwise_only=fname != "roc_with_ci")
+                if fname == "roc_with_ci":
+                    # the same answer sequence again, for the pointwise intervals
+                    exact_envelope(ctx, case, src, r, alpha, cfgobj, reset=lambda _c=calls: _c.clear())
         # ---------------- built-in samplers under the RNG answer tree
         if ci_ == rot % 4 and len(pos) + len(neg) <= 4:
             n_s = b["builtin_nb_samples"]
@@ -361,22 +420,26 @@ def _run_light(item, ctx):
     ep, en = item["easy"]
     big = [float(i) for i in range(n)]
     one = [split - 0.5]
-    for which in ("pos", "neg"):
+    for which in ("pos", "neg") if "long" not in item else (item["long"],):
         pos, neg = (big, one) if which == "pos" else (one, big)
-        for cfg in (ot.CFGS[item["rot"] % 4], ot.CFGS[(item["rot"] + 1) % 4]):
+        for cfg in (ot.CFGS[item["rot"] % 4], ot.CFGS[(item["rot"] + 1) % 4])[: 1 if "long" in item else 2]:
             src = Scores(pos[::-1], neg[::-1], nb_easy_pos=ep, nb_easy_neg=en, score_class=cfg[0], equal_class=cfg[1])
-            for alpha, method in ((0.05, "quantile"), (0.5, "bc")):
+            for alpha, method in ((0.05, "quantile"), (0.5, "bc"))[: 1 if "long" in item else 2]:
                 cfgobj = BootstrapConfig(nb_samples=2, bootstrap_method=method, sampling_method=lambda s: s)
                 case = {"big_class": which, "n": n, "other_score_at": one[0], "easy": [ep, en], "cfg": list(cfg), "alpha": alpha,
                         "method": method, "sampler": "identity"}
+                got = {}
                 for fname, f in (("roc_with_ci", roc_with_ci), ("pointwise_band_ci", pointwise_band_ci)):
                     ctx.state()
                     ok, r = guarded(ctx, fname, case, lambda: f(src, nb_points=None, alpha=alpha, config=cfgobj))
                     ctx.tick()
                     if ok and wellformed(ctx, dict(case, function=fname), src, r, fname == "roc_with_ci"):
                         ctx.nontrivial()
+                        got[fname] = r
                         compare_bands(ctx, dict(case, function=fname), src, r, [src, src], alpha, method,
                                       pointwise_only=fname != "roc_with_ci")
+                if "roc_with_ci" in got:
+                    exact_envelope(ctx, case, src, got["roc_with_ci"], alpha, cfgobj)
     ctx.sample({"kind": "light", "n": n, "split": split, "easy": [ep, en]})
     return None
 
